@@ -358,6 +358,20 @@ class Folder:
         return self.fold(e)
 
     def fold(self, e: ast.expr) -> Any:
+        once = self.__dict__.get("_once")
+        if once and id(e) in once:
+            # the receiver of the method call being evaluated: evaluated once, however many of the call's cases look at it
+            # (a receiver with an effect - `r.read_bits(8).to_bytes(...)` - must not be run again)
+            hit = once[id(e)]
+            if hit is not _UNSET:
+                return hit
+            v_once = self._fold_guarded(e)
+            if id(e) in once:
+                once[id(e)] = v_once
+            return v_once
+        return self._fold_guarded(e)
+
+    def _fold_guarded(self, e: ast.expr) -> Any:
         self.depth += 1
         if self.depth > 200:
             raise Unfoldable("recursion")
@@ -402,6 +416,8 @@ class Folder:
                     return getattr(base, e.attr)
                 if isinstance(base, ARange) and e.attr in ("start", "stop", "step"):
                     return getattr(base, e.attr)
+                if type(base).__name__ == "Struct" and type(base).__module__ in ("_struct", "struct") and e.attr in ("size", "format"):
+                    return getattr(base, e.attr)
                 if isinstance(base, ClassInfo) and self.repo is not None:
                     # a member reached through a class held in a variable (`cls.helper`, `K.CONSTANT`)
                     m_ = self.repo.lookup_method(base, e.attr)
@@ -432,6 +448,8 @@ class Folder:
             if isinstance(base, (int, Fraction)) and not isinstance(base, bool) and e.attr in ("numerator", "denominator"):
                 return getattr(base, e.attr)
             if isinstance(base, ARange) and e.attr in ("start", "stop", "step"):
+                return getattr(base, e.attr)
+            if type(base).__name__ == "Struct" and type(base).__module__ in ("_struct", "struct") and e.attr in ("size", "format"):
                 return getattr(base, e.attr)
             if isinstance(base, Abstract) and (not e.attr.startswith("__") or e.attr == "__name__") and (type(base).__name__ != "AObj" or e.attr in base.__dict__ or e.attr in ("_replace", "_asdict")) and hasattr(base, e.attr):
                 return getattr(base, e.attr)
@@ -675,8 +693,15 @@ class Folder:
         r = self.repo.resolve_expr(self.mod, e, self.cls)
         if isinstance(r, ast.expr):
             # a module/class level constant expression; fold it in its own module
+            if id(r) in PROCESS_STATE:
+                return PROCESS_STATE[id(r)][1]
             owner = self._owner_module(e)
-            return Folder(self.env, self.repo, owner, None, self.hook).fold(r)
+            v_mod = Folder(self.env, self.repo, owner, None, self.hook).fold(r)
+            if isinstance(v_mod, (bytearray, list, dict, set)) and not isinstance(v_mod, Abstract):
+                # a mutable module-level object is ONE object for the life of the process: whoever changes it changes it for
+                # everyone after (the rules start every rule with a fresh process, see Ctx.attempt)
+                PROCESS_STATE[id(r)] = (r, v_mod)
+            return v_mod
         if isinstance(r, ClassInfo):
             return r  # a class of the model, as a value (e.g. chosen by a conditional expression)
         if isinstance(r, FuncInfo) and (r.cls is None or r.is_static or r.is_classmethod or (isinstance(e, ast.Attribute) and not (isinstance(e.value, ast.Name) and e.value.id in ("self",)))):
@@ -740,6 +765,18 @@ class Folder:
         return self.mod
 
     def _call(self, e: ast.Call) -> Any:
+        if isinstance(e.func, ast.Attribute) and not isinstance(e.func.value, (ast.Name, ast.Constant)):
+            once = self.__dict__.setdefault("_once", {})
+            key = id(e.func.value)
+            if key not in once:
+                once[key] = _UNSET
+                try:
+                    return self._call_cases(e)
+                finally:
+                    once.pop(key, None)
+        return self._call_cases(e)
+
+    def _call_cases(self, e: ast.Call) -> Any:
         name = dotted(e.func)
         if name is not None and self.repo is not None and self.mod is not None and name.split(".")[0] not in self.env and isinstance(e.func, (ast.Name, ast.Attribute)):
             try:
@@ -1198,6 +1235,68 @@ class Folder:
             return _Partial(self.fold(args[0]), [self.fold(a) for a in args[1:]], {k.arg: self.fold(k.value) for k in e.keywords if k.arg})
         if name in ("time.monotonic", "time.time", "time.perf_counter", "time.process_time", "monotonic", "perf_counter") and not args and name.split(".")[0] not in self.env:
             return 0.0  # the clock: no analysed property depends on elapsed time (durations are only logged)
+        if name is not None and name.startswith("math.") and name.split(".")[1] in ("isnan", "isinf", "isfinite", "copysign", "floor", "ceil", "trunc", "fabs", "ldexp", "frexp", "log2", "sqrt", "isclose") and "math" not in self.env:
+            import math as _math
+
+            vals_m = [self.fold(a) for a in args]
+            if any(isinstance(v_, Abstract) or not isinstance(v_, (int, float, Fraction)) for v_ in vals_m):
+                raise Unfoldable(unparse(e))
+            try:
+                return getattr(_math, name.split(".")[1])(*vals_m)
+            except (ValueError, OverflowError) as ex_m:
+                from .absint import Raised
+
+                raise Raised(type(ex_m).__name__, e)
+        if name == "struct.Struct" and len(args) == 1 and "struct" not in self.env:
+            import struct as _struct
+
+            fmt_ = self.fold(args[0])
+            if not isinstance(fmt_, (str, bytes)):
+                raise Unfoldable(unparse(e))
+            try:
+                return _struct.Struct(fmt_)  # a precompiled format: an immutable value
+            except _struct.error:
+                from .absint import Raised
+
+                raise Raised("struct.error", e)
+        if isinstance(e.func, ast.Attribute) and e.func.attr in ("pack", "unpack", "unpack_from", "pack_into", "iter_unpack"):
+            import struct as _struct
+
+            try:
+                recv_ = self.fold(e.func.value) if not (isinstance(e.func.value, ast.Name) and e.func.value.id == "struct" and "struct" not in self.env) else None
+            except Unfoldable:
+                recv_ = None
+            if isinstance(recv_, _struct.Struct):
+                vals_s = [self.fold(a) for a in args]
+                if any(isinstance(v_, Abstract) for v_ in vals_s):
+                    raise Unfoldable(unparse(e))
+                try:
+                    return getattr(recv_, e.func.attr)(*vals_s)
+                except _struct.error:
+                    from .absint import Raised
+
+                    raise Raised("struct.error", e)
+                except (OverflowError, TypeError) as ex_s:
+                    from .absint import Raised
+
+                    raise Raised(type(ex_s).__name__, e)
+        if name in ("struct.pack", "struct.unpack", "struct.unpack_from", "struct.calcsize", "struct.pack_into") and "struct" not in self.env:
+            import struct as _struct
+
+            vals_s = [self.fold(a) for a in args]
+            if any(isinstance(v_, Abstract) for v_ in vals_s):
+                raise Unfoldable(unparse(e))
+            try:
+                r_s = getattr(_struct, name.split(".")[1])(*vals_s)
+            except _struct.error:
+                from .absint import Raised
+
+                raise Raised("struct.error", e)
+            except (OverflowError, TypeError) as ex_s:
+                from .absint import Raised
+
+                raise Raised(type(ex_s).__name__, e)
+            return r_s
         if name in ("math.lcm", "math.gcd"):
             vals = [self.fold(a) for a in args]
             return getattr(math, name.split(".")[1])(*vals)
@@ -1416,6 +1515,10 @@ class ARange:
 
     def count(self, x: Any) -> int:
         return self.r.count(x)
+
+
+_UNSET = object()
+PROCESS_STATE: dict = {}  # id(assignment value node) -> (node, the one object it evaluated to) for mutable module-level values
 
 
 class TooLarge(Unfoldable):
